@@ -3,7 +3,7 @@ from __future__ import annotations
 
 import ast
 
-from ..astutil import call_name, dotted, short, u
+from ..astutil import arg_of, call_name, dotted, short, u
 from ..core import Report
 from ..ctx import sites, dominates
 from ..frontend import Repo
@@ -134,7 +134,7 @@ def check(repo: Repo, rep: Report) -> None:
     disp = disps[0]
     st = u(calls[0].stmt.targets[0]) if calls and isinstance(calls[0].stmt, ast.Assign) else "state"
     nxt = [s for s in sites(per) if is_schedule_call(s.node) and s.node.func.attr == "schedule_relative"]
-    ok = len(nxt) == 1 and any(k.arg == "state" and u(k.value) == st for k in nxt[0].node.keywords) and u(nxt[0].node.args[1]) == "periodic" \
+    ok = len(nxt) == 1 and u(arg_of(nxt[0].node, 2, "state")) == st and u(nxt[0].node.args[1]) == "periodic" \
         and calls and calls[0].index < nxt[0].index
     rep.ob("P1-state-threading", per, "next tick scheduled with the new state", ok, "the re-scheduled tick does not carry the state returned by the action")
     ok = calls and has_guard(calls[0].ctx, f"{disp}.is_disposed", False)
@@ -206,7 +206,7 @@ def check(repo: Repo, rep: Report) -> None:
            "periodic timers do not emit 0, 1, 2, ...")
     tp = repo.fn(TM, "observable_timer_timespan_and_period.subscribe")
     ok = any(isinstance(s.node, ast.Return) and isinstance(s.node.value, ast.Call) and isinstance(s.node.value.func, ast.Attribute)
-             and s.node.value.func.attr == "schedule_periodic" and u(s.node.value.args[0]) == "period" and any(k.arg == "state" and u(k.value) == "0" for k in s.node.value.keywords) for s in sites(tp))
+             and s.node.value.func.attr == "schedule_periodic" and u(s.node.value.args[0]) == "period" and u(arg_of(s.node.value, 2, "state")) == "0" for s in sites(tp))
     rep.ob("P5-timers", tp, "timer(p, p) = schedule_periodic(period, action, state=0)", ok, "the equal-period timer does not start its count at 0 on the periodic scheduler")
     iv = repo.fn(IV, "interval_")
     rep.ob("P5-timers", iv, "interval = timer(period, period, scheduler)", any(isinstance(s.node, ast.Return) and u(s.node.value) == "timer(period, period, scheduler)" for s in sites(iv)),
